@@ -54,7 +54,10 @@ func cmdSecMaterialise(args []string) error {
 				doc["security"] = secReq(r["galts"])
 			}
 		}
-		op := obj{"operationId": fmt.Sprintf("op%d", i), "responses": obj{"200": obj{"description": "ok"}}}
+		// every operation declares a required, constrained parameter: a request without it is invalid, and
+		// whether that is noticed before or after authentication is part of what C06 observes
+		op := obj{"operationId": fmt.Sprintf("op%d", i), "responses": obj{"200": obj{"description": "ok"}},
+			"parameters": []any{obj{"name": "limit", "in": "query", "type": "integer", "required": true, "minimum": 1}}}
 		if inh, _ := r["inherit"].(bool); !inh {
 			op["security"] = secReq(r["own"])
 		}
